@@ -680,7 +680,8 @@ inline uint StringDictionaryRPFC::decodeSymbol(uint *symbol, uchar *ptr,
 
 inline uint StringDictionaryRPFC::decodeString(uchar *str, uint *strLen,
                                                uchar **ptr, uint *offset) {
-  uchar *vb = new uchar[maxlength];
+  // A rule may expand to the whole internal string: VByte, suffix and end mark
+  uchar *vb = new uchar[maxlength + 8];
   uint read = 0;
 
   uint rule;
